@@ -264,9 +264,27 @@ def rule_b(ctx: Context, R: Reporter):
 RENAMES = ("os.rename", "os.replace", "shutil.move")
 
 
+def blob_writers(ctx: Context) -> List[Tuple[FuncInfo, ast.Call]]:
+    """Writes of an in-memory pickle: path.write_bytes(dill.dumps(..)) / handle.write(dill.dumps(..))."""
+    out = []
+    for fi in ctx.prog.functions.values():
+        for c in calls_in(fi.node):
+            if isinstance(c.func, ast.Attribute) and c.func.attr in ("write_bytes", "write", "write_text") and c.args:
+                rx = c.args[0]
+                names = [rx] + [flow_of(fi.node).reaching(flow_of(fi.node).node_containing(c), rx.id)[0].value for _ in [0] if isinstance(rx, ast.Name) and len(flow_of(fi.node).reaching(flow_of(fi.node).node_containing(c), rx.id)) == 1]
+                if any(isinstance(x, ast.Call) and (ctx.res.external_name(fi, x) or "") in ("dill.dumps", "pickle.dumps") for n0 in names if n0 is not None for x in ast.walk(n0)):
+                    out.append((fi, c))
+    return out
+
+
 def rule_c(ctx: Context, R: Reporter):
     ds = dumpers(ctx)
-    R.floor("C08.c", "checkpoint writers (dump to a handle)", len(ds), 2)
+    bw = blob_writers(ctx)
+    for (fi, c) in bw:
+        R.check("C08.c", "a checkpoint is written through a handle that is flushed and fsynced before the rename", False, fi, c,
+                msg=f"{fi.short}: `{unparse(c)[:70]}` writes the pickle without a handle on which flush() and os.fsync() are called: after the rename a power loss can leave an empty or "
+                    f"truncated file under the checkpoint's final name", key="write-without-handle-sync")
+    R.floor("C08.c", "checkpoint writers", len({f.qualname for (f, _, _) in ds} | {f.qualname for (f, _) in bw}), 2)
     for (fi, dump, nm) in ds:
         flow = flow_of(fi.node)
         cfg = flow.cfg
@@ -633,7 +651,7 @@ def _derives_from_key(fi: FuncInfo, acc, n) -> bool:
 
 # ------------------------------------------------------------------ C08.f
 def rule_f(ctx: Context, R: Reporter):
-    dump_funcs = {fi.qualname for (fi, _, _) in dumpers(ctx)}
+    dump_funcs = {fi.qualname for (fi, _, _) in dumpers(ctx)} | {fi.qualname for (fi, _) in blob_writers(ctx)}
     sc = state_class(ctx)
     n_sites = 0
     for fi in ctx.prog.functions.values():
@@ -676,10 +694,53 @@ def rule_f(ctx: Context, R: Reporter):
     R.floor("C08.f", "save call sites wired to save_every", n_sites, 2)
 
 
+def rule_g(ctx: Context, R: Reporter):
+    """The object pickled into the checkpoint is the live object itself under a
+    pool-less configuration swap (restored afterwards); never a shallow copy,
+    whose collaborators still hold bound methods of the original object and,
+    through it, the pool."""
+    n = 0
+    for fi in ctx.prog.functions.values():
+        if fi.cls is None:
+            continue
+        flow = flow_of(fi.node)
+        cfg = flow.cfg
+        for nd in cfg.stmt_nodes():
+            for c in calls_in_node(nd):
+                if (ctx.res.external_name(fi, c) or "") not in ("dill.dumps", "pickle.dumps") or not c.args:
+                    continue
+                root = c.args[0]
+                rts = ctx.res.expr_types(fi, root)
+                derived = isinstance(root, ast.Name) and any(d.value is not None and any(isinstance(x, ast.Name) and x.id == "self" for x in ast.walk(d.value)) for d in flow.reaching(nd, root.id))
+                if fi.cls not in rts and not (isinstance(root, ast.Name) and root.id == "self") and not derived:
+                    continue
+                n += 1
+                facts = conds_holding_at(cfg, nd)
+                pool_branch = any("pool" in norm_text(t) and is_none_test(t) is not None and ((is_none_test(t)[1] is False) == pol) for (t, pol) in facts)
+                is_self = isinstance(root, ast.Name) and root.id == "self"
+                R.check("C08.g", "the pickled root is the live object, not a copy of it", is_self, fi, c,
+                        msg=f"{fi.short}: `{unparse(c)}` pickles `{unparse(root)}`, a copy: the copy's step objects still reference the original (e.g. a bound likelihood wrapper), "
+                            f"whose configuration keeps the pool, so saving with a live pool object fails to pickle", key=f"pickled-root:{norm_text(root)}")
+                if pool_branch and is_self:
+                    # a dominating `self.config = <replace(..., pool=None)>` and a restoring assignment in a finally block
+                    swaps = [m for m in cfg.stmt_nodes() if m.kind == "stmt" and isinstance(m.stmt, ast.Assign) and any(norm_text(t) == "self.config" for t in m.stmt.targets)]
+                    detach = [m for m in swaps if cfg.dominates(m.id, nd.id) and any(isinstance(x, ast.keyword) and x.arg == "pool" and const_is_none(x.value) for x in ast.walk(m.stmt.value))]
+                    restore = [m for m in swaps if m not in detach and cfg.reaches(nd.id, m.id)]
+                    in_finally = any(isinstance(t, ast.Try) and t.finalbody and any(r.stmt in ast.walk(ast.Module(body=t.finalbody, type_ignores=[])) for r in restore) for t in ast.walk(fi.node))
+                    R.check("C08.g", "with a pool configured, the object is pickled under a pool-less configuration that is restored in a finally block", bool(detach) and bool(restore) and in_finally, fi, c,
+                            msg=f"{fi.short}: pool branch pickles `self` without swapping in a pool-less configuration (detach: {len(detach)}, restore: {len(restore)}, in finally: {in_finally})", key="pool-detached-while-pickling")
+    R.floor("C08.g", "pickles of the sampler object", n, 1)
+
+
+def const_is_none(e) -> bool:
+    return isinstance(e, ast.Constant) and e.value is None
+
+
 def run(ctx: Context, R: Reporter):
     rule_a(ctx, R)
     rule_b(ctx, R)
     rule_c(ctx, R)
+    rule_g(ctx, R)
     rule_d(ctx, R)
     rule_e(ctx, R)
     rule_f(ctx, R)
@@ -701,6 +762,8 @@ def variants():
         Variant("c-open-final-sm", "bad", replace_expr(sm, "StateManager.save_state", "open(temp_path, 'wb')", "open(path, 'wb')"), ["C08.c"]),
         Variant("c-fsync-before-dump", "bad", edit(sm, "StateManager.save_state", _swap_dump_fsync), ["C08.c"]),
         Variant("c-rename-reversed", "bad", replace_expr(sm, "StateManager.save_state", "os.rename(temp_path, path)", "os.rename(path, temp_path)"), ["C08.c"]),
+        Variant("c-write-bytes", "bad", edit(core, "SamplerCore.save_sampler_state", _to_write_bytes), ["C08.c"], quick=True),
+        Variant("g-pickle-shallow-copy", "bad", replace_stmt(core, "SamplerCore.save_sampler_state", "d['sampler'] = dill.dumps(self)", "import copy\nclone = copy.copy(self)\nd['sampler'] = dill.dumps(clone)"), ["C08.g"]),
         Variant("d-export-wrong-attr", "bad", replace_expr(sm, "StateManager.to_dict", "self._history.items()", "self._current.items()"), ["C08.d"]),
         Variant("d-import-skips-history", "bad", edit(sm, "StateManager.update_from_dict", _drop_history_import), ["C08.d", "C08.a"], quick=True),
         Variant("e-reset-iter-after-load", "bad", insert_after(core, "SamplerCore.run_sampling", "self._initialize_from_resume(resume_state_path)", "self.state.set_current('calls', 0)"), ["C08.e"], quick=True),
@@ -732,3 +795,9 @@ def _drop_history_import(node, tree):
     from ..variants import replace_in_body
 
     return replace_in_body(node, lambda s: isinstance(s, ast.If) and "'_history'" in ast.unparse(s.test), lambda s: [])
+
+
+def _to_write_bytes(node, tree):
+    from ..variants import parse_stmts, replace_in_body
+
+    return replace_in_body(node, lambda st: isinstance(st, ast.With) and "dump" in ast.unparse(st), lambda st: parse_stmts("temp_path.write_bytes(dill.dumps(d))"))
